@@ -4,6 +4,7 @@ from replay import instr
 
 
 def scenarios(seed, tier, failed):
+    yield {'kind': 'writer-backlog', 'lines': 1200, 'timeout': 20}
     # a run long enough to saturate the trace ring buffer, on both clocks
     for coarse in (True, False):
         yield {'kind': 'chart', 'parent': [-1, 0, 0], 'init': [None, None, None], 'start': 1, 'host': 'HsmWithQueues',
@@ -16,7 +17,35 @@ def scenarios(seed, tier, failed):
         yield sc
 
 
+def run_writer_backlog(sc):
+    """The writer of an active object while its thread is not taking lines (a stalled callback): every line handed to
+    _print is kept, in order, and the caller never waits."""
+    import threading
+    from miros.activeobject import InstrumenationWriterClass
+    wr = InstrumenationWriterClass()
+    got = []
+    done = threading.Event()
+
+    def feed():
+        for i in range(sc['lines']):
+            wr._print(fn=got.append, content=i)
+        done.set()
+    t = threading.Thread(target=feed, daemon=True)
+    t.start()
+    if not done.wait(5):
+        return False, '_print blocked the calling thread after %d lines were handed over' % wr._queue.qsize(), 'writer.'
+    items = []
+    while not wr._queue.empty():
+        items.append(wr._queue.get_nowait().content)
+    if items != list(range(sc['lines'])):
+        return False, '%d lines handed to the writer while its thread was not taking any, %d kept' % (
+            sc['lines'], len(items)), 'writer.'
+    return True, ''
+
+
 def run(sc):
+    if sc.get('kind') == 'writer-backlog':
+        return run_writer_backlog(sc)
     return instr.run_c21(sc)
 
 
